@@ -139,6 +139,11 @@ func Cover(label string) {
 	}
 }
 
+// Expect declares that the witness label has to be covered on some path of this harness (a shape of a
+// grid that is never accepted is a vacuous case); the executor reports labels that were expected but
+// never covered.  Natively a no-op.
+func Expect(label string) {}
+
 // Havoc overwrites every byte of b with an arbitrary value.
 func Havoc(b []byte) {
 	d := next("havoc")
